@@ -107,25 +107,38 @@ def main(inp, outp):
                     nat = Sgp4Beta()
                     nat.orbit = Tle(text).orbit()
                     b = np.asarray(nat.propagate(timedelta(seconds=off_s)), float)
-                    rp, rv = ref_model(real_twoline2rv(case["l1"], case["l2"], wrapper_mod.wgs72), off_s / 60.0)
+                    refsat = real_twoline2rv(case["l1"], case["l2"], wrapper_mod.wgs72)
+                    rp, rv = ref_model(refsat, off_s / 60.0)
+                    if refsat.error or not np.all(np.isfinite(np.asarray(rp, float))):
+                        continue          # the reference itself reports a decayed / invalid orbit at that date: nothing to compare with
                     d_cm = float(np.linalg.norm(b[:3] - np.asarray(rp, float) * 1000.0)) * 100
+                    if not np.isfinite(d_cm):
+                        d_cm = 1e30       # the native model returns NaN where the reference gives a state
+                    which = text
                     # several propagators alive at once: the one initialised EARLIER must still give its own orbit
                     if older is not None and older[1] != (case["l1"], case["l2"]):
                         ob = np.asarray(older[0].propagate(timedelta(seconds=off_s)), float)
-                        orp, _ = ref_model(real_twoline2rv(older[1][0], older[1][1], wrapper_mod.wgs72), off_s / 60.0)
-                        d_cm = max(d_cm, float(np.linalg.norm(ob[:3] - np.asarray(orp, float) * 1000.0)) * 100)
+                        osat = real_twoline2rv(older[1][0], older[1][1], wrapper_mod.wgs72)
+                        orp, _ = ref_model(osat, off_s / 60.0)
+                        d_old = float(np.linalg.norm(ob[:3] - np.asarray(orp, float) * 1000.0)) * 100
+                        if osat.error or not np.all(np.isfinite(np.asarray(orp, float))):
+                            d_old = 0.0
+                        elif not np.isfinite(d_old):
+                            d_old = 1e30
+                        if d_old > d_cm:
+                            d_cm, which = d_old, "\n".join(older[1]) + "   (propagator initialised before the current entry's)"
                     if k == len(case["queries"]) - 1:
                         older = (nat, (case["l1"], case["l2"]))
                     laws["checked"] += 1
                     laws["worst_cm"] = max(laws["worst_cm"], d_cm)
-                    if d_cm > 1.0:
+                    if d_cm > float(os.environ.get("VERIF_SGP4_CM", "1.0")):
                         laws["failed"] += 1
-                        if len(laws["examples"]) < 4:
-                            laws["examples"].append({"tle": text, "offset_s": off_s, "difference_cm": d_cm, "perigee_km": perigee_km, "period_min": period_min})
+                        if len(laws["examples"]) < int(os.environ.get("VERIF_SGP4_EX", "4")):
+                            laws["examples"].append({"tle": which, "offset_s": off_s, "difference_cm": d_cm, "perigee_km": perigee_km, "period_min": period_min})
                 except Exception as e:
                     laws["checked"] += 1
                     laws["failed"] += 1
-                    if len(laws["examples"]) < 4:
+                    if len(laws["examples"]) < int(os.environ.get("VERIF_SGP4_EX", "4")):
                         laws["examples"].append({"tle": text, "offset_s": off_s, "error": f"{type(e).__name__}: {e}"})
         traces.append({"id": case["id"], "items": items})
     with open(outp, "w") as fh:
